@@ -320,7 +320,7 @@ def write_evidence(pid, tier, coverage, wall, violations, assumptions, level="mo
     return ev
 
 
-VOLATILE_KEYS = ("dir", "path", "wall", "ms", "root", "tmp", "pid", "rss_kb")
+VOLATILE_KEYS = ("dir", "path", "wall", "ms", "root", "tmp", "pid", "rss_kb", "rss_growth_kb", "fatal_detail")
 
 
 def event_key(e, volatile=VOLATILE_KEYS):
@@ -505,6 +505,9 @@ class Ctx:
                         keys2.add((v.get("clause"), event_key(ev2[v["i"] - 1])))
                 confirmed = [ve for ve in new if (ve.get("clause"), event_key(ve.get("event"))) in keys2]
                 unreproduced = len(new) - len(confirmed)
+                for ve in new:
+                    if (ve.get("clause"), event_key(ve.get("event"))) not in keys2:
+                        log("  not reproduced: %s  %s" % (ve.get("clause"), json.dumps(ve.get("event", {}), default=str)[:500]))
             except Inconclusive as e:
                 log("reproduction run inconclusive:", e)
                 confirmed, unreproduced = [], len(new)
